@@ -41,6 +41,13 @@ class Tok(HTMLParser):
         self.text.append(d)
 
 
+def _tok(body):
+    t = Tok()
+    t.feed(body.decode('utf8', 'replace'))
+    t.close()
+    return t
+
+
 class AppError(Exception):
     pass
 
@@ -225,6 +232,12 @@ def judge(sh, case, record=True):
         if fn not in page:
             bad('file-name-missing', 'monitored file %r does not appear in the page' % fn)
             return
+    # the same application keeps answering (a second, different request)
+    ex3 = probe.request(app, 'GET', '/second/look')
+    if ex3.exc is not None or ex3.status != 200 or (isinstance(text, str) and text not in ''.join(_tok(ex3.body).text)):
+        bad('second-request-differs', 'a second request to the same failsafe application gave status %s (%s)'
+            % (ex3.status, probe.safe_repr(ex3.exc) if ex3.exc else 'text missing' if ex3.status == 200 else ''))
+        return
     if case['kind'] == 'traceback':
         sh.hit('standard-traceback-rendered')
         name, msg = case['expect']
